@@ -131,6 +131,9 @@ struct Sys
     ready: bool,
     /// trace position of the last change-detection baseline of this system (None: never sampled)
     baseline: Option<usize>,
+    /// exclusive systems: trace position at which the previous run's flush ended (Bevy records an exclusive system's
+    /// last-run tick after its flush)
+    baseline_excl: Option<usize>,
 }
 
 #[derive(Debug, Clone)]
@@ -526,7 +529,7 @@ impl Checker
                     shape: *shape, pool: pool.is_some(), alive: true, entity_known: false, persistent: true,
                     registered: false, once: false, arc: None, runs: 0, open_runs: Vec::new(), canary_dropped: false,
                     manually_despawned: false, postponed_runs: 0, trees_with_runs: HashSet::new(),
-                    lost_by: HashSet::new(), fired_keys: 0, n_keys: 0, ready: pool.is_some(), baseline: None,
+                    lost_by: HashSet::new(), fired_keys: 0, n_keys: 0, ready: pool.is_some(), baseline: None, baseline_excl: None,
                 });
             }
             Ev::Hierarchy(pairs) =>
@@ -557,6 +560,22 @@ impl Checker
             Ev::BodyEnd{ run, readings, err } => self.on_body_end(*run, readings.as_ref(), *err),
             Ev::FlushEnd{ run } => self.on_flush_end(*run),
             Ev::ChangeSample{ changed, resample } => self.on_change_sample(*changed, *resample),
+            Ev::WorldChangeSample{ changed } =>
+            {
+                let Some(sys) = self.last_begun else { self.internal("world change sample without a run".into()); return };
+                let base = self.systems[sys as usize].baseline_excl;
+                for r in 0..2
+                {
+                    let want = match (base, self.last_res_mut[r]) { (None, _) => true, (Some(_), None) => false, (Some(b), Some(m)) => m > b };
+                    if changed[r] != want
+                    {
+                        let k = self.systems[sys as usize].runs;
+                        self.viol_sys("C13", Some(sys), format!("run {k} of exclusive system {sys}: World change detection reports resource {r} as {}, but it was {} since the system's previous run completed (its last-run tick is part of its private state)",
+                            if changed[r] { "changed" } else { "unchanged" }, if want { "mutated" } else { "not mutated" }));
+                    }
+                    if !want && base.is_some() { self.rep.classes.hit("C13:exclusive_sees_unchanged"); }
+                }
+            }
             Ev::Probe{ readings, .. } =>
             {
                 if !readings.is_empty()
@@ -1693,6 +1712,7 @@ impl Checker
         if !r.body_end { self.viol("C09", format!("commands of run {run} were applied before its body returned")); }
         self.runs.get_mut(&run).unwrap().flush_end = true;
         self.systems[r.sys as usize].open_runs.retain(|x| *x != run);
+        self.systems[r.sys as usize].baseline_excl = Some(self.pos);
         self.once_done(r.sys);
     }
 
